@@ -14,6 +14,9 @@ import (
 
 func typeName(ty types.Type) string {
 	s := ty.String()
+	if strings.HasPrefix(s, "[]") || strings.HasPrefix(s, "*") || strings.HasPrefix(s, "func") || strings.HasPrefix(s, "map") {
+		return s
+	}
 	if i := strings.LastIndex(s, "/"); i >= 0 {
 		s = s[i+1:]
 	}
@@ -49,10 +52,26 @@ func (t *dtr) apiType(ty types.Type) string {
 		return "(Z * string)"
 	case "veconst.FieldList":
 		return "(list (Z * bool))"
-	case "context.Context":
+	case "context.Context", "vedirect.IOPort", "*github.com/koestler/go-victron/vedirect.Vedirect":
 		return "unit"
+	case "vedirect.Config":
+		return "cfg"
+	case "vedirectapi.RegisterApi":
+		return "apiobj"
+	case "*github.com/koestler/go-victron/vedirectapi.RegisterApi":
+		return "(option apiobj)"
 	}
 	return ""
+}
+
+// isApiObj: a local variable of type RegisterApi (the object NewRegisterApi builds)
+func (t *dtr) isApiObj(e ast.Expr) bool {
+	id, ok := e.(*ast.Ident)
+	if !ok {
+		return false
+	}
+	tv, ok := t.info.Types[e]
+	return ok && typeName(tv.Type) == "vedirectapi.RegisterApi" && !t.isRecv(id)
 }
 
 // regAccessor: r.Signed() etc. on a register struct -> the projection of the observation record
@@ -95,6 +114,17 @@ func (t *dtr) apiSelector(x *ast.SelectorExpr) string {
 	if !ok {
 		return ""
 	}
+	if t.isApiObj(x.X) {
+		n := t.varName(x.X.(*ast.Ident))
+		switch x.Sel.Name {
+		case "ioPort", "Vd":
+			return "tt"
+		case "Product":
+			return "(ao_product " + n + ")"
+		case "Registers":
+			return "(ao_registers " + n + ")"
+		}
+	}
 	if typeName(tv.Type) == "veregister.RegisterList" {
 		id, ok := x.X.(*ast.Ident)
 		if !ok {
@@ -115,6 +145,24 @@ func (t *dtr) apiCall(x *ast.CallExpr, tv types.TypeAndValue) ([]bnd, string, bo
 		return p, fmt.Sprintf("(%s %s)", acc, r), true
 	}
 	fn := types.ExprString(x.Fun)
+	switch fn {
+	case "vedirect.NewVedirect":
+		if len(x.Args) != 2 || typeName(t.info.Types[x.Args[1]].Type) != "vedirect.Config" {
+			t.bad(x, "NewVedirect arguments")
+		}
+		p, _ := t.args(x.Args)
+		v := t.tmp()
+		return append(p, bnd{v, "p_new_vedirect", false}), v, true
+	case "veregister.GetRegisterListByProduct":
+		p, a := t.ex(x.Args[0])
+		return p, "(g_reglist_by_product " + a + ")", true
+	}
+	if s2, ok := x.Fun.(*ast.SelectorExpr); ok && s2.Sel.Name == "Exists" && len(x.Args) == 0 {
+		if rtv, ok := t.info.Types[s2.X]; ok && typeName(rtv.Type) == "veproduct.Product" {
+			p, a := t.ex(s2.X)
+			return p, "(g_product_exists " + a + ")", true
+		}
+	}
 	if fn == "strings.TrimSpace" {
 		p, a := t.ex(x.Args[0])
 		return p, "(trim_space " + a + ")", true
@@ -124,7 +172,7 @@ func (t *dtr) apiCall(x *ast.CallExpr, tv types.TypeAndValue) ([]bnd, string, bo
 		return nil, "", false
 	}
 	// sa.Vd.M(args): the translated driver
-	if in, ok := sel.X.(*ast.SelectorExpr); ok && in.Sel.Name == "Vd" && t.isRecv(in.X) {
+	if in, ok := sel.X.(*ast.SelectorExpr); ok && in.Sel.Name == "Vd" && (t.isRecv(in.X) || t.isApiObj(in.X)) {
 		switch sel.Sel.Name {
 		case "GetUint", "GetInt", "GetString", "GetDeviceId", "Ping":
 			p, a := t.args(x.Args)
